@@ -114,11 +114,14 @@ def _worker_main(conn, pid_name, repo):
 
 
 class Pool:
-    def __init__(self, pid_name, repo, jobs, timeout, batch):
+    def __init__(self, pid_name, repo, jobs, timeout, batch, fresh=False):
+        self.fresh = fresh
         self.pid_name, self.repo, self.jobs = pid_name, repo, jobs
         self.timeout, self.batch = timeout, batch
         self.ctx = mp.get_context('fork')
         self.workers = {}
+        self.worker_hist = {}      # worker id -> case indices in execution order
+        self.where = {}            # case index -> (worker id, position in that worker's history)
 
     def _spawn(self):
         parent, child = self.ctx.Pipe()
@@ -126,7 +129,9 @@ class Pool:
                              daemon=True)
         p.start()
         child.close()
-        w = dict(proc=p, conn=parent, pending=[], cur=None, t0=None, ready=False)
+        self.n_spawned = getattr(self, 'n_spawned', 0) + 1
+        w = dict(proc=p, conn=parent, pending=[], cur=None, t0=None, ready=False, wid=self.n_spawned)
+        self.worker_hist[w['wid']] = []
         self.workers[parent] = w
         return w
 
@@ -157,6 +162,18 @@ class Pool:
                 tag = msg[0]
                 if tag == 'fatal':
                     raise SystemExit('HARNESS: worker failed to start:\n' + msg[1])
+                if tag == 'done' and self.fresh and queue:
+                    # one pristine process per batch (C19: history independence is compared with a
+                    # first-call-in-a-fresh-process baseline)
+                    try:
+                        conn.send(None)
+                    except Exception:
+                        pass
+                    w['proc'].join(timeout=5)
+                    conn.close()
+                    del self.workers[conn]
+                    self._spawn()
+                    continue
                 if tag == 'ready' or tag == 'done':
                     w['ready'] = True
                     w['cur'] = None
@@ -176,6 +193,9 @@ class Pool:
                 elif tag == 's':
                     w['cur'] = msg[1]
                     w['t0'] = now
+                    h = self.worker_hist[w['wid']]
+                    self.where[msg[1]] = (w['wid'], len(h))
+                    h.append(msg[1])
                 elif tag == 'r':
                     results[msg[1]] = msg[2]
                     if msg[1] in w['pending']:
@@ -214,6 +234,10 @@ class Pool:
                 w['proc'].kill()
         self.workers = {}
         return results
+
+    def history_before(self, idx):
+        wid, pos = self.where.get(idx, (None, 0))
+        return list(self.worker_hist.get(wid, [])[:pos])
 
     def _worker_died(self, w, results, queue):
         conn = w['conn']
@@ -260,10 +284,15 @@ def replay_path(here, pid, case):
     return os.path.join(d, h + '.json')
 
 
-def write_replay(here, pid, case, viol):
-    path = replay_path(here, pid, case)
+def write_replay(here, pid, case, viol, history_cases=None):
+    path = replay_path(here, pid, case if not history_cases else dict(case=case, n_hist=len(history_cases)))
+    d = dict(property=pid, case=case, violations=viol)
+    if history_cases:
+        d['history_cases'] = history_cases
+        d['note'] = ('history-dependent: the violation reproduces only after the listed cases have run in the same '
+                     'process, i.e. the library carries state from one call to the next')
     with open(path, 'w') as f:
-        f.write(jdump(dict(property=pid, case=case, violations=viol)))
+        f.write(jdump(d))
     return path
 
 
@@ -288,6 +317,8 @@ def do_replay(mod, pid, path, repo, as_json):
         rp = json.load(f)
     if hasattr(mod, 'worker_init'):
         mod.worker_init()
+    for hc in rp.get('history_cases', []):
+        safe_run_case(mod, hc, repo)       # state left behind by earlier cases of the same process
     res = safe_run_case(mod, rp['case'], repo)
     if res.get('harness_error'):
         print(res['harness_error'])
@@ -383,7 +414,7 @@ def main(argv, here, repo):
     print('[%s] tier=%s seed=%d cases=%d jobs=%d repo=%s' % (pid, tier, seed, n, jobs, repo),
           flush=True)
     pool = Pool(pid, repo, jobs, getattr(mod, 'CASE_TIMEOUT', 120),
-                getattr(mod, 'BATCH', 8))
+                getattr(mod, 'BATCH', 8), fresh=getattr(mod, 'FRESH_WORKER_PER_BATCH', False))
     res_ordered = pool.run(
         ordered, progress=lambda d, m: print('  ... %d/%d' % (d, m), flush=True))
     results = [None] * n
@@ -428,9 +459,18 @@ def main(argv, here, repo):
             print('HARNESS: replay subprocess failed for %s' % path)
             return 3
         if sig not in sigs2:
-            print('HARNESS-NONDETERMINISM: %s did not reproduce from %s (got %s)'
-                  % (sig, path, sigs2))
-            return 3
+            # not reproducible in isolation: replay together with the cases the same worker process had
+            # executed before it (a defect that carries state between calls needs its history)
+            hist = [ordered[j] for j in pool.history_before(order.index(i))]
+            path = write_replay(here, pid, cases[i],
+                                [dict(sig=x['sig'], msg=x['msg']) for x in results[i]['viol']], hist)
+            sigs3 = run_replay_subprocess(here, pid, path) if hist else None
+            if not sigs3 or sig not in sigs3:
+                print('HARNESS-NONDETERMINISM: %s did not reproduce from %s (got %s / with history %s)'
+                      % (sig, path, sigs2, sigs3))
+                return 3
+            print('  (reproduces only after the %d cases that ran before it in the same process: state is '
+                  'carried between calls)' % len(hist))
         if k:
             known_lines.append((sig, len(idxs), k))
             print('KNOWN-FINDING: property=%s %s [%s; %d case(s) this run; e.g. replay=%s]'
